@@ -237,7 +237,8 @@ def corr_recorder(ctx: Ctx):
 
 # ----------------------------------------------------------------------------- B: mutation schedules end to end
 HDR = ("from inline_snapshot import snapshot\nimport copy\nfrom collections import namedtuple\nfrom dataclasses import dataclass\nROW = namedtuple('ROW', 'k v')\n\n\n"
-       "@dataclass(frozen=True, order=True)\nclass FZ:\n    k: int\n    v: object\n\n\nLOG = []\n\n")
+       "@dataclass(frozen=True, order=True)\nclass FZ:\n    k: int\n    v: object\n\n\n"
+       "@dataclass(unsafe_hash=True, order=True)\nclass UH:\n    k: int\n    v: int\n\n\nLOG = []\n\n")
 
 
 @dataclasses.dataclass(frozen=True, order=True)
@@ -245,6 +246,38 @@ class FZ:
     """the frozen dataclass of the schedules (a frozen dataclass is only shallowly immutable), for reading the generated code back"""
     k: int
     v: object
+
+
+@dataclasses.dataclass(unsafe_hash=True, order=True)
+class UH:
+    """hashable and mutable: a tuple or frozenset that holds it is hashable too, and still changes when the object does (round-9 miss C17-91)"""
+    k: int
+    v: int
+
+
+def hashable_mutable_scheds():
+    """deterministic schedules: the compared value is a hashable container (tuple, nested tuple, frozenset, namedtuple) that holds a hashable but
+    mutable object which is changed after the assertion and between repeated assertions"""
+    out = []
+    for wrap in ("(0, u)", "((u,), 1)", "frozenset({u})", "ROW(0, u)", "(frozenset({u}), 2)"):
+        # a member of a frozenset must not change while the set is still in use (its hash changes: the set itself is broken then, whatever is recorded):
+        # frozensets are only mutated after the last comparison
+        for op in (("eq", "eq_twice", "in", "getitem", "le", "ge") if "frozenset" not in wrap else ("eq", "eq_twice")):
+            body = ["    u = UH(1, 2)", f"    t = {wrap}"]
+            log = "    LOG.append(copy.deepcopy(t))"
+            if op == "eq":
+                body += [log, "    assert t == snapshot()", "    u.v = 99"]
+            elif op == "eq_twice":
+                body += ["    for i in range(2):", "    " + log, "        assert t == snapshot()", "    u.v = 99"]
+            elif op == "in":
+                body += ["    for i in range(3):", "    " + log, "        assert t in snapshot()", "        u.v += 10", "    u.k = 7"]
+            elif op in ("le", "ge"):
+                sym = "<=" if op == "le" else ">="
+                body += ["    for i in range(3):", "    " + log, f"        assert t {sym} snapshot()", "        u.v += (10 if i == 0 else -30)", "    u.v = 1000" if op == "le" else "    u.v = -1000"]
+            else:
+                body += ["    s = snapshot()", "    for i in range(2):", "    " + log, "        assert t == s[i]", "        u.v += 10", "    u.v = 99"]
+            out.append({"op": op, "source": HDR + "def test_a():\n" + "\n".join(body) + "\n"})
+    return out
 
 
 def gen_value_src(rng, depth=0):
@@ -302,7 +335,7 @@ def run_sched(s):
         tree = ast.parse(after)
         call = [n for n in ast.walk(tree) if isinstance(n, ast.Call) and isinstance(n.func, ast.Name) and n.func.id == "snapshot"][0]
         import collections
-        out["arg"] = eval(compile(ast.Expression(call.args[0]), "<a>", "eval"), {"ROW": collections.namedtuple("ROW", "k v"), "FZ": FZ}) if call.args else None
+        out["arg"] = eval(compile(ast.Expression(call.args[0]), "<a>", "eval"), {"ROW": collections.namedtuple("ROW", "k v"), "FZ": FZ, "UH": UH}) if call.args else None
         # the values at comparison time: execute the original test with snapshot := a recorder that accepts everything
         ns = {}
         plain = s["source"].replace("from inline_snapshot import snapshot\n", "class _Any:\n    def __eq__(s, o): return True\n    def __le__(s, o): return True\n    def __ge__(s, o): return True\n"
@@ -329,6 +362,8 @@ def _plain(x):
         return [_plain(y) for y in x]
     if isinstance(x, dict):
         return {k: _plain(v) for k, v in x.items()}
+    if isinstance(x, frozenset):
+        return frozenset(_plain(y) for y in x)
     return x
 
 
@@ -459,7 +494,9 @@ def bad_copy(ctx: Ctx, only=None):
                  "assert Bad(1) == snapshot()['k']", "assert Bad(1) == snapshot(Bad(1))", "assert Bad(1) in snapshot([Bad(1)])",
                  # values that copy.deepcopy returns unchanged but that are not equal to themselves
                  "assert float('nan') == snapshot()", "assert float('nan') <= snapshot()", "assert float('nan') in snapshot()",
-                 "assert __import__('decimal').Decimal('NaN') == snapshot()"):
+                 "assert __import__('decimal').Decimal('NaN') == snapshot()",
+                 # inside hashable containers (Bad is hashable): a tuple / frozenset is no reason to skip the copy check
+                 "assert (Bad(1), 2) == snapshot()", "assert frozenset({Bad(1)}) == snapshot()", "assert ((Bad(1),),) in snapshot()", "assert (0, Bad(1)) == snapshot()['k']"):
         src = BADCOPY % expr
         for flags in ((), ("create", "fix")):
             if only and only != (expr, flags):
@@ -597,7 +634,7 @@ def run(ctx: Ctx):
     corr_heap(ctx)
     corr_recorder(ctx)
     m = 240 if not ctx.thorough else 2400
-    scheds = [gen_sched(ctx.rng, i) for i in range(m)]
+    scheds = [gen_sched(ctx.rng, i) for i in range(m)] + hashable_mutable_scheds()
     outs = pmap(run_sched, scheds, chunksize=8)
     for s, o in zip(scheds, outs):
         ctx.count(("sched", s["source"]), True)
